@@ -26,29 +26,34 @@ FUNCTIONS = ['pymeeus/Sun.py:Sun.get_equinox_solstice', 'pymeeus/Sun.py:Sun.equa
              'pymeeus/Epoch.py:Epoch.__iadd__', 'pymeeus/Epoch.py:Epoch.__isub__']
 
 MANIFEST = dict(
-    text=("Lean 4 theorems (Props/C14.lean, 20) about the real-arithmetic model of Sun.get_equinox_solstice, "
+    text=("Lean 4 theorems (Props/C14.lean, 24) about the real-arithmetic model of Sun.get_equinox_solstice, "
           "Sun.equation_of_time, Epoch.rise_set and times_rise_transit_set: ValueError exactly outside years "
           "-1000..3000 and for a bad target, Meeus' tables 27.A/27.B selected as documented; for ANY solar "
           "longitude function, if the season loop exits the returned instant is the last one the longitude was "
           "evaluated at and that longitude is within 2.5e-6 degree of k*90 degrees or of its antipode (partial "
-          "correctness only); the equation-of-time (minutes, seconds) recombine to |E| with the sign on the minutes "
+          "correctness only) - also with the model's own Epoch(jde) constructor, proved to be the identity over the "
+          "reals on jde >= 0, for up to 20000 passes; the equation-of-time (minutes, seconds) recombine to |E| with the sign on the minutes "
           "(lost below one minute; known finding), and its +-180 degree reduction lands in [-180, 180] for every value; "
           "rise <= transit <= set whenever the acos argument is in "
-          "[-1,1], which is proved under |lat| + 23.44 + 0.83 + dip <= 90 degrees and proved to fail whenever lat + declination "
-          "> 90 - 0.83 - dip, e.g. at latitude 66.5 (known finding); times_rise_transit_set returns no times iff the body at its middle position never reaches h0. "
+          "[-1,1]; for every accepted latitude, height and date rise_set raises ValueError exactly when |lat + delta| > 90 "
+          "- 0.83 - dip, delta the sunrise equation's own declination for that day (the listed midnight-sun finding, "
+          "characterised), hence never under |lat| + 23.44 + 0.83 + dip <= 90; times_rise_transit_set returns no times iff the body at its middle position never reaches h0. "
           "The model's binary64 instantiation agrees with CPython bit for bit on every sampled call (the season loop "
-          "fed the solar longitudes the implementation saw). All numerical clauses (1e-5 degree, 88-95 d, "
+          "both fed the solar longitudes the implementation saw and run from the year alone on the C08 model of the "
+          "Sun's apparent position). All numerical clauses (1e-5 degree, 88-95 d, "
           "365.2-365.3 d, 25/17.5 min, 45 s/day, 1 degree, 0.005 degree) are measured on the implementation, not "
           "proved: all years -1000..3000 x 4 seasons, 1200 whole years of daily equation-of-time values, 80000 "
           "sunrise/sunset cases and 480000 synthetic bodies in thorough; one pass of the times_rise_transit_set "
-          "iteration moves the transit by at most half a day. Three defects of the implementation remain listed as "
+          "iteration moves the transit by at most half a day, the returned transit lies within one day of the start "
+          "estimate, and rise < transit < set holds without day wrap when the corrections differ by less than H0/360. Three defects of the implementation remain listed as "
           "known findings (findings.d/C14.json); three others were fixed in /repo."),
     note=("Partial. Not carried by any theorem: convergence of the season loop and which of the two solutions it "
           "converges to; every numerical bound of the statement (agreement of Meeus' series with each other is "
-          "empirical); the iteration of times_rise_transit_set beyond its None test. Trusted: Lean kernel, Mathlib, "
+          "empirical); convergence of the times_rise_transit_set passes (the rise/set corrections are unbounded near "
+          "grazing). Trusted: Lean kernel, Mathlib, "
           "axioms propext/Classical.choice/Quot.sound; the hand-written model and its bit-exact correspondence run; "
           "Sun.apparent_geocentric_position, leap_seconds, alpha/nutation/obliquity are parameters of the model; "
-          "Epoch(jde) is the identity in the real-number theorems that say so; binary64 -> R idealisation."),
+          "binary64 -> R idealisation."),
     technique="Lean 4 proof (Mathlib real analysis) + model/implementation correspondence check + measured predicates",
     ref='6 C14')
 
@@ -57,11 +62,14 @@ TRUSTED = [
     'function; in the F tie the driver receives the list of (JDE, longitude) pairs the implementation saw (one per '
     'loop pass), answers NaN at any other JDE, and must return the same instant bit for bit, so the tie checks that '
     'the model makes the same steps when fed the same longitudes',
-    'Epoch(jde) (store, read the date back, recompute) is mirrored in F with EpochCore get_date/compute_jde; in the '
-    'real-number theorems it is a parameter mk (identity where stated)',
+    'Epoch(jde) (store, read the date back, recompute) is the model function mkEpoch (EpochCore get_date/compute_jde) '
+    'in both instantiations; over the reals it is proved to be the identity on jde >= 0 (Refine/EpochCoreR.lean)',
     'Epoch.leap_seconds(year, month) and alpha / nutation / obliquity of equation_of_time enter the model as input '
     'values computed by the implementation',
     'loop fuel of the season model in the F tie = number of longitude evaluations the implementation made + 1',
+    'second season tie (get_equinox_solstice_year): the same loop run from (year, target) alone, the solar longitude '
+    'being the C08 model of Sun.apparent_geocentric_position (templates/SunEarth.lean), fuel 64; it must return the '
+    'implementation\'s instant bit for bit',
 ]
 ASSUMPTIONS = [
     'an Epoch returned by rise_set is read as a TT instant (the documented convention of Epoch): the Sun is computed at '
@@ -131,6 +139,9 @@ def season_call(ctx, Sun, year, target, klass):
     if isinstance(year, int) and not isinstance(year, bool) and isinstance(target, str):
         ctx.case('get_equinox_solstice', [year, target, list(rec.jdes), list(rec.lons)], out, q=None,
                  klass='season/' + klass)
+        # the same call from the year alone: the loop with the model's own Epoch constructor and the solar
+        # longitude modelled by templates/SunEarth.lean (VSOP87 + FK5 + nutation + aberration)
+        ctx.case('get_equinox_solstice_year', [year, target], out, q=None, klass='season_year/' + klass)
     return j, out, len(rec.jdes)
 
 
